@@ -35,6 +35,7 @@ type World struct {
 	hdrDel       map[uint64]bool // ghost: delivered so far
 	datDel       map[uint64]bool
 	junkReplaced map[uint64]bool // ghost: a junk item for this height was delivered while the genuine data was cached there
+	junkSame     map[uint64]bool // ghost: a junk item carrying the genuine transactions of this height (same commitment) was delivered
 	junkDel      map[uint64]bool // ghost: heights for which junk data (unauthenticated P2P data not matching the header) was delivered
 	lastH        uint64
 	execN        int
@@ -244,7 +245,7 @@ func Run(c *hx.Ctx) {
 				continue
 			}
 			w.prod = p
-			w.hdrDel, w.datDel, w.junkDel, w.junkReplaced = map[uint64]bool{}, map[uint64]bool{}, map[uint64]bool{}, map[uint64]bool{}
+			w.hdrDel, w.datDel, w.junkDel, w.junkReplaced, w.junkSame = map[uint64]bool{}, map[uint64]bool{}, map[uint64]bool{}, map[uint64]bool{}, map[uint64]bool{}
 			w.cause, w.stale = "", false
 			c.Emit("%s", w.startFull(nil, ""))
 			w.lastH = w.full.Height()
@@ -279,6 +280,7 @@ func Run(c *hx.Ctx) {
 					w.hdrDel[k] = true
 				} else {
 					w.full.M.VerifDataInCh() <- block.NewDataEvent{Data: d, DAHeight: uint64(o.Int("da"))}
+					delete(w.junkReplaced, k) // the genuine data is delivered again
 					if len(d.Txs) > 0 {
 						w.datDel[k] = true
 					}
@@ -309,14 +311,24 @@ func Run(c *hx.Ctx) {
 			if !w.dead {
 				md := *d.Metadata
 				junk := &types.Data{Metadata: &md}
-				for _, tx := range o.List("txs") {
-					junk.Txs = append(junk.Txs, types.Tx(tx))
+				if o.Bool("same") {
+					// the GENUINE transactions (hence the genuine data commitment, which ignores metadata) under a wrong time:
+					// types.Validate(header, data) rejects it, but its commitment is the one the seen-set is keyed by
+					junk.Txs = d.Txs
+					md.Time++
+				} else {
+					for _, tx := range o.List("txs") {
+						junk.Txs = append(junk.Txs, types.Tx(tx))
+					}
 				}
 				if w.datDel[k] && hasHeight(w.full.M.DataCache().VerifItemHeights(), k) && k > w.full.Height() {
 					w.junkReplaced[k] = true
 				}
 				w.full.M.VerifDataInCh() <- block.NewDataEvent{Data: junk, DAHeight: uint64(o.Int("da"))}
 				w.junkDel[k] = true
+				if o.Bool("same") {
+					w.junkSame[k] = true
+				}
 				w.waitDataTaken()
 				if !w.settle() {
 					w.dead = true
@@ -350,7 +362,7 @@ func Run(c *hx.Ctx) {
 					w.cause = "crash-between-" + last + "-and-" + kindOf(bm.DescribeWS(w.full.DS.Log[keep]))
 				}
 				// the in-memory caches are lost: what was delivered but not applied must be delivered again
-				w.hdrDel, w.datDel, w.junkDel, w.junkReplaced = map[uint64]bool{}, map[uint64]bool{}, map[uint64]bool{}, map[uint64]bool{}
+				w.hdrDel, w.datDel, w.junkDel, w.junkReplaced, w.junkSame = map[uint64]bool{}, map[uint64]bool{}, map[uint64]bool{}, map[uint64]bool{}, map[uint64]bool{}
 				if o.Bool("stale") {
 					// ... but the cache FILES of the last clean stop (an older generation of the caches) are still there
 					root = w.full.Root
@@ -431,10 +443,14 @@ func hasHeight(l []uint64, k uint64) bool {
 
 // classifyStall: both parts of block h+1 were delivered and the node stays at h.  A cause is named only when the node's own
 // caches show it (anything else is "other" = a new violation):
-//   - the commitment of the genuine data of h+1 is in the data seen-set AND no data is cached at h+1: the genuine data really
-//     was (or will always be) dropped as "already seen".  Why it is in the seen-set without being cached:
-//     junk-p2p-data-replaced-cached-data: a junk data item for h+1 was delivered while the genuine data was cached there
+//   - no data is cached at h+1 and the commitment of the genuine data of h+1 IS in the data seen-set: the genuine data was (and
+//     will always be) dropped as "already seen".  Why it is there although block h+1 is not applied:
+//     junk-p2p-data-marked-genuine-commitment-seen: a junk item copying the genuine transactions of h+1 was delivered (repaired
+//     by /repo c3c43a6: only applied blocks are marked)
 //     tx-list-repeats-an-earlier-block:  another block of the chain (applied, or its data delivered) carries the same tx list
+//   - no data is cached at h+1, the commitment is NOT in the seen-set, and a junk item for h+1 was delivered while the genuine data
+//     was cached there and the genuine data has not been delivered since: junk-p2p-data-replaced-cached-data (recorded finding;
+//     the node recovers when the genuine data arrives again)
 //   - header and data of h+1 are both cached after a restart on stale cache files (nothing triggered trySyncNextBlock)
 func (w *World) classifyStall(h uint64) string {
 	ctx := context.Background()
@@ -450,8 +466,8 @@ func (w *World) classifyStall(h uint64) string {
 			}
 		}
 		if seen && !hasHeight(dcH, h+1) {
-			if w.junkReplaced[h+1] {
-				return "C02/stall/junk-p2p-data-replaced-cached-data"
+			if w.junkSame[h+1] {
+				return "C02/stall/junk-p2p-data-marked-genuine-commitment-seen"
 			}
 			for k := w.opt.InitialHeight; k <= w.prod.Height(); k++ {
 				if k == h+1 {
@@ -461,6 +477,9 @@ func (w *World) classifyStall(h uint64) string {
 					return "C02/stall/tx-list-repeats-an-earlier-block"
 				}
 			}
+		}
+		if !seen && !hasHeight(dcH, h+1) && w.junkReplaced[h+1] {
+			return "C02/stall/junk-p2p-data-replaced-cached-data"
 		}
 	}
 	if w.stale && hasHeight(hcH, h+1) && hasHeight(dcH, h+1) {
